@@ -16,6 +16,7 @@ import (
 	"io"
 	"os"
 	"os/exec"
+	"strings"
 	"syscall"
 )
 
@@ -123,9 +124,15 @@ func vhReadAll(r io.Reader) ([]byte, error) {
 	p.drained = true
 	if p.isErr {
 		vhC14Events = append(vhC14Events, "drain-stderr")
+		if vhContentMode {
+			return []byte(strings.Repeat("E", ch.errBytes)), nil
+		}
 		return []byte("ERR-DATA"), nil
 	}
 	vhC14Events = append(vhC14Events, "drain-stdout")
+	if vhContentMode {
+		return []byte(strings.Repeat("o", ch.outBytes)), nil
+	}
 	return []byte("OUT-DATA"), nil
 }
 
@@ -144,11 +151,22 @@ func vhCmdWait(c *exec.Cmd) error {
 		vHang("Wait before stderr was drained")
 	}
 	// writers installed on the command are fed by os/exec's copying goroutines
-	if c.Stdout != nil {
-		c.Stdout.Write([]byte("OUT-DATA"))
-	}
-	if c.Stderr != nil {
-		c.Stderr.Write([]byte("ERR-DATA"))
+	if vhContentMode {
+		for i := 0; i < ch.nwrites; i++ {
+			if ch.toErr[i] && c.Stderr != nil {
+				c.Stderr.Write([]byte(strings.Repeat("E", ch.size[i])))
+			}
+			if !ch.toErr[i] && c.Stdout != nil {
+				c.Stdout.Write([]byte(strings.Repeat("o", ch.size[i])))
+			}
+		}
+	} else {
+		if c.Stdout != nil {
+			c.Stdout.Write([]byte("OUT-DATA"))
+		}
+		if c.Stderr != nil {
+			c.Stderr.Write([]byte("ERR-DATA"))
+		}
 	}
 	if !ch.signaled && ch.code == 0 {
 		return nil
@@ -225,3 +243,40 @@ func vhC14(a []int, twin bool) {
 	}
 	vReach("C14.end")
 }
+
+// vh_C14_content: the captured bytes themselves, for concrete write sizes
+// around the buffer sizes involved (the writers installed on the command are
+// the real bytes.Buffer code, executed from its SSA).
+// a = {#writes}
+func vh_C14_content(a []int) {
+	ch := &vhChild{nwrites: a[0]}
+	vhTheChild, vhC14Events = ch, nil
+	sizes := []int{0, 8, 40000, 70000}
+	for i := 0; i < ch.nwrites; i++ {
+		ch.toErr[i] = vChoice("write.to-stderr", 2) == 1
+		ch.size[i] = sizes[vChoice("write.size", len(sizes))]
+		if ch.toErr[i] {
+			ch.errBytes += ch.size[i]
+		} else {
+			ch.outBytes += ch.size[i]
+		}
+	}
+	ch.code = 3
+	vhContentMode = true
+	res, err := RunCommand([]string{"prog"}, "")
+	vhContentMode = false
+	vObserve("content", err == nil, ch.outBytes, ch.errBytes)
+	if err == nil {
+		so, _ := res["stdout"].(string)
+		se, _ := res["stderr"].(string)
+		vAssert("C14.captured-stdout-is-exactly-what-the-command-wrote", so == strings.Repeat("o", ch.outBytes))
+		vAssert("C14.captured-stderr-is-exactly-what-the-command-wrote", se == strings.Repeat("E", ch.errBytes))
+	} else {
+		vAssert("C14.content-run-succeeds", false)
+	}
+	vReach("C14.end")
+}
+
+var vhContentMode bool
+
+func init() { vhRegister("vh_C14_content", vh_C14_content) }
